@@ -373,7 +373,7 @@ def gen_case(rng, nops_max=25, focus=None):
 
 
 def gen(rng, tier):
-    n = {'quick': 400, 'thorough': 4000, 'search': 300}[tier]
+    n = {'quick': 600, 'thorough': 6000, 'search': 300}[tier]
     return [gen_case(rng) for _ in range(n)]
 
 
